@@ -70,7 +70,12 @@ func makeEvent(p string, n int) interface{} {
 	case 0:
 		return &pb.Ev_EnvironmentEvent{EnvironmentId: env, Message: id}
 	case 1:
-		return &pb.Ev_RunEvent{EnvironmentId: env, Error: id}
+		// run events of one environment with different run numbers (and with none): still "about the same environment"
+		rn := uint32(0)
+		if n%10 != 1 {
+			rn = uint32(560000 + n%3)
+		}
+		return &pb.Ev_RunEvent{EnvironmentId: env, Error: id, RunNumber: rn}
 	case 2:
 		return &pb.Ev_RoleEvent{EnvironmentId: env, Name: id}
 	case 3:
